@@ -156,11 +156,20 @@ def make_resolver(cls, schema, spec, world):
             raise
     kw = {}
     cap = spec.get("memoCap", 1024)
-    res = V.RefResolver(
-        base_uri=base, referrer=schema,
-        store=dict((k, v) for k, v in spec.get("store", [])),
-        cache_remote=spec.get("cacheRemote", True),
-        **kw)
+    import zlib
+    if spec.get("base") is None and zlib.crc32(repr(schema).encode("utf-8", "replace")) % 3 == 0:
+        # the way a validator builds its own resolver (`RefResolver.from_schema(schema, id_of=cls.ID_OF, …)`): by
+        # definition the resolver below with base_uri = id_of(schema)
+        res = V.RefResolver.from_schema(
+            schema, id_of=cls.ID_OF,
+            store=dict((k, v) for k, v in spec.get("store", [])),
+            cache_remote=spec.get("cacheRemote", True))
+    else:
+        res = V.RefResolver(
+            base_uri=base, referrer=schema,
+            store=dict((k, v) for k, v in spec.get("store", [])),
+            cache_remote=spec.get("cacheRemote", True),
+            **kw)
     if world is not None:
         res.handlers = _AnyScheme(world.fetch)
     if cap != 1024:
@@ -225,8 +234,16 @@ def run_val(case, world=None, custom_fc=None):
         v = cls(schema, resolver=res, format_checker=make_fc(case.get("fc"), tag, custom_fc))
     except Exception as exc:       # noqa: BLE001
         return {"ctor": exc_json(exc)}
+    before = repr((schema, inst))
     errs, stop = consume(v.iter_errors(inst), case.get("budget"))
-    return {"errs": [err_json(e) for e in errs], "stop": stop, "st": state_json(res, world)}
+    out = {"errs": [err_json(e) for e in errs], "stop": stop, "st": state_json(res, world)}
+    if repr((schema, inst)) != before and len(MODIFIED) < 20:
+        MODIFIED.append({"case": {k: case.get(k) for k in ("cls", "schema", "inst", "budget")}, "after": repr((schema, inst))[:600]})
+    return out
+
+
+# validations that changed the schema or the instance they were given (collected by campaigns.run)
+MODIFIED = []
 
 
 def run_hist(case, world=None, custom_fc=None, observe=None):
